@@ -33,3 +33,21 @@ package ecdh
 //@   modifies ghost(rndpos, id(rand))
 //@   loop 1 invariant len(key) == 32 && objof(key) < 0 && ghost(rndpos, id(rand)) >= P0
 //@   coverreturns
+
+// ---- SM2-MQV in the byte-oriented implementation (C08): the shared point leaves the function only
+// through NewPublicKey - the one place that refuses the point at infinity (GB/T 32918.3: the exchange
+// fails when V is the point at infinity) and re-checks the encoding. NewPublicKey itself is assumed here.
+//@ func (*sm2Curve).NewPublicKey trusted
+//@   ensures err == nil ==> result0 != nil
+//@   modifies nothing
+// (public keys of this curve hold the 65-byte uncompressed point: object invariant, assumed here)
+//@ func (*PrivateKey).PublicKey trusted
+//@   ensures result != nil && len(result.publicKey) == 65
+//@   modifies nothing
+//@ func (*sm2Curve).sm2mqv property C08
+//@   requires c != nil && sLocal != nil && eLocal != nil && sRemote != nil && eRemote != nil && len(eRemote.publicKey) == 65 && len(sRemote.publicKey) == 65
+//@   fnspec newPoint: std:pointCreator
+//@   bind after call NewPublicKey#1: NP := ite(result1 == nil, 0, 1)
+//@   ensures err == nil ==> NP == 0
+//@   heapnonnil
+//@   modifies everything
